@@ -60,6 +60,14 @@ def _one_inner(item):
     return res
 
 
+def step_oracle(term, out):
+    """Terminal-style wrapper: step the whole program on both machines, compare after every opcode."""
+    r = _one((term.cfg.labels(term.seq)[0], term.data))
+    out.stats.inc("deviation_prefix_steps", r["steps"])
+    for v in r["viol"]:
+        out.violate(*v)
+
+
 def run(rep, tier):
     items = []
     for i, v in enumerate(corpus.plain_values(tier)):
